@@ -22,7 +22,11 @@ impl Oracle for C06 {
         }
         let refused_delivery = matches!(rec.step.op, Op::Deliver { .. }) && is_refusal(&rec.class);
         let refused_welcome = matches!(rec.step.op, Op::ProcessWelcome { .. }) && rec.class == "err";
-        if !(refused_delivery || refused_welcome) {
+        let refused_kp = matches!(rec.step.op, Op::Hostile(crate::hostile::HostileOp::HostileKeyPackage { .. })) && rec.class == "err";
+        if refused_kp {
+            w.probe("hostile_key_package_refused");
+        }
+        if !(refused_delivery || refused_welcome || refused_kp) {
             return;
         }
         if let Op::Deliver { ev } = &rec.step.op {
@@ -55,6 +59,7 @@ impl Oracle for C06 {
             }
             let desc = match &rec.step.op {
                 Op::Deliver { ev } => w.ev(*ev).map(|p| p.desc.clone()).unwrap_or_default(),
+                Op::Hostile(_) => "damaged key package".into(),
                 _ => "welcome".into(),
             };
             let known = if self.guarded { None } else { known_trigger(w, rec) };
@@ -94,7 +99,7 @@ fn conf(g: &mut Gen) {
 
 pub fn spec() -> CheckSpec {
     let mut guards = BTreeSet::new();
-    for g in ["h_garbage", "h_outer", "h_commit", "h_proposal", "h_welcome", "h_rumor", "h_rewrap"] {
+    for g in ["h_garbage", "h_outer", "h_commit", "h_proposal", "h_welcome", "h_rumor", "h_rewrap", "h_keypackage"] {
         guards.insert(g.to_string());
     }
     let base = Profile { second_group: true, guards, hostile: 6, ..Default::default() };
